@@ -50,6 +50,7 @@ type inst struct {
 	model   map[uint32]map[string]string // written non-filler series: id -> tags
 	schema  map[string]bool              // tag keys of the written series
 	nFill   int
+	descC   string
 }
 
 func (I *inst) caseOf(c string, g []string, state string) caseT {
@@ -57,6 +58,14 @@ func (I *inst) caseOf(c string, g []string, state string) caseT {
 }
 
 func (I *inst) desc() string {
+	if I.descC != "" {
+		return I.descC
+	}
+	I.descC = I.desc0()
+	return I.descC
+}
+
+func (I *inst) desc0() string {
 	var p []string
 	for i, s := range I.series {
 		p = append(p, fmt.Sprintf("%s@%d", s, I.phase[i]))
@@ -662,7 +671,7 @@ func main() {
 	debug.SetGCPercent(200)
 
 	thorough := f.Thorough()
-	condTexts := buildConditions(thorough)
+	condTexts := buildConditions(lvlBase)
 	logger.RunningAtomicLevel.SetLevel(zapcore.FatalLevel)
 	r := &runner{rep: rep, f: f, onlyCond: -1, okeys: map[okey]struct{}{},
 		diff: map[diffKey]string{}, diffAt: map[diffKey]string{}, gdiff: map[gdiffKey]string{}, gdiffAt: map[gdiffKey]string{}}
@@ -696,8 +705,24 @@ func main() {
 	}
 
 	checkParser()
-	for _, t := range condTexts {
-		r.conds = append(r.conds, newCond(t))
+	condSets := make([][]*cond, 3)
+	byText := map[string]*cond{}
+	for lvl := lvlAtoms; lvl <= lvlFull; lvl++ {
+		if lvl == lvlFull && !thorough {
+			continue
+		}
+		for _, t := range buildConditions(lvl) {
+			c, ok := byText[t]
+			if !ok {
+				c = newCond(t)
+				byText[t] = c
+			}
+			condSets[lvl] = append(condSets[lvl], c)
+		}
+	}
+	r.conds = condSets[lvlBase]
+	if thorough {
+		r.conds = condSets[lvlFull]
 	}
 	maxDepth, maxAtoms := 0, 0
 	kinds := map[string]int{}
@@ -717,21 +742,27 @@ func main() {
 		series []seriesT
 		lo, hi int
 		fills  []int
+		lvl    int // condition set
 	}
 	var plans []plan
 	if thorough {
 		plans = []plan{
-			{"product", productPool(), 1, 2, []int{0}},
-			{"sharp", sharpPool, 3, 3, []int{0}},
-			{"boundary", boundaryPool, 3, 4, []int{65535, 65534}},
+			{"product", productPool(), 1, 2, []int{0}, lvlFull},
+			{"sharp", sharpPool, 3, 3, []int{0}, lvlFull},
+			{"sharp", sharpPool, 4, 4, []int{0}, lvlAtoms},
+			{"boundary", boundaryPool, 3, 4, []int{65535, 65534}, lvlBase},
 		}
 	} else {
 		plans = []plan{
-			{"sharp", sharpPool, 1, 3, []int{0}},
+			{"sharp", sharpPool, 1, 2, []int{0}, lvlBase},
+			{"sharp", sharpPool, 3, 3, []int{0}, lvlAtoms},
 		}
 	}
 	if len(f.Args) > 0 && f.Args[0] == "tiny" { // debugging aid: ./h -tier quick tiny
-		plans = []plan{{"sharp", sharpPool, 1, 2, []int{0}}}
+		plans = []plan{{"sharp", sharpPool, 1, 2, []int{0}, lvlBase}}
+	}
+	if len(f.Args) > 0 && f.Args[0] == "tinyb" {
+		plans = []plan{{"boundary", boundaryPool, 3, 3, []int{65535}, lvlBase}}
 	}
 
 	rep.Rule = "one evaluation = (multiset of series of one metric, placement of every series before/after the first index flush, index state, " +
@@ -740,13 +771,15 @@ func main() {
 		"subset of the written series or the condition contains a negation and some written series lacks a referenced key; every group-by evaluation has a non-empty selected set"
 	rep.Bounds["tag_keys"] = tagKeys
 	rep.Bounds["conditions"] = len(r.conds)
+	rep.Bounds["condition_sets"] = map[string]int{"atoms+depth1": len(condSets[lvlAtoms]), "base(depth2)": len(condSets[lvlBase]), "full(depth2)": len(condSets[lvlFull])}
 	rep.Bounds["condition_max_depth"] = maxDepth
 	rep.Bounds["condition_max_atoms"] = maxAtoms
 	rep.Bounds["condition_kinds"] = kinds
 	rep.Bounds["atoms_per_key"] = len(atomsFor("host", true))
 	var pd []string
 	for _, p := range plans {
-		pd = append(pd, fmt.Sprintf("%s: %d series, multisets of size %d..%d, fillers %v", p.pool, len(p.series), p.lo, p.hi, p.fills))
+		cs := fmt.Sprintf("%s condition set (%d)", []string{"atoms+depth1", "base(depth2)", "full(depth2)"}[p.lvl], len(condSets[p.lvl]))
+		pd = append(pd, fmt.Sprintf("%s: %d series, multisets of size %d..%d, fillers %v, %s", p.pool, len(p.series), p.lo, p.hi, p.fills, cs))
 	}
 	rep.Bounds["plans"] = pd
 	rep.Bounds["sharp_pool"] = fmt.Sprint(sharpPool)
@@ -766,6 +799,7 @@ func main() {
 		r.gdiff, r.gdiffAt = map[gdiffKey]string{}, map[gdiffKey]string{}
 	}
 	for _, p := range plans {
+		r.conds = condSets[p.lvl]
 		for _, ms := range multisets(len(p.series), p.lo, p.hi) {
 			for _, fill := range p.fills {
 				msIdx++
